@@ -113,6 +113,24 @@ fn parse(w: &str) -> (usize, Vec<(char, u16, usize)>) {
     let v = rs.split(',').map(|t| { let k = t.chars().next().unwrap(); let (c, l) = t[1..].split_once(':').unwrap(); (k, c.parse().unwrap(), l.parse().unwrap()) }).collect();
     (s, v)
 }
+/// a body that ends early: the client declares `l` bytes, sends `sent` < `l` and closes its sending side.  The handler never
+/// sees the incomplete body as if it were the request's body, runs at most once (with the body still pending), and no success
+/// status is sent for the run that would have needed the body
+fn shortbody(s: &Server, small: usize, kind: char, l: usize, sent: usize) -> Option<String> {
+    let desc = format!("shortbody S={small} kind={kind} len={l} sent={sent}");
+    let path = path_of(kind, 200);
+    let mut msg = format!("POST {path} HTTP/1.1\r\ncontent-length: {l}\r\n\r\n").into_bytes();
+    msg.extend_from_slice(&body_of(l, 0)[..sent]);
+    s.log.lock().unwrap().clear();
+    let out = exchange(s, &msg);
+    let got: Vec<u16> = statuses(&out).into_iter().filter(|c| *c != 100).collect();
+    std::thread::sleep(Duration::from_millis(20));
+    let runs = s.log.lock().unwrap().clone();
+    if let Some(r) = runs.iter().find(|r| !r.1) { return Some(format!("{desc} expected=no handler run with a body that was not received whole actual=run{r:?}")); }
+    if runs.len() > 1 { return Some(format!("{desc} expected=at most one handler run actual={} runs", runs.len())); }
+    if kind == 'g' && got.contains(&200) { return Some(format!("{desc} expected=no 200 (the body never arrived) actual=statuses{got:?}")); }
+    None
+}
 /// a long pipeline of small requests on one connection (more than the connection buffer holds), delivered in two writes with a
 /// pause at byte `cut` -- so that a request head is split wherever the buffer happens to be: one handler run and one 200 per
 /// request, in order, whatever the buffer management does
@@ -146,6 +164,12 @@ fn main() {
             let s = start(100);
             match longpipe(&s, g("count"), g("cut")) { Some(m) => { println!("WITNESS {m}"); std::process::exit(1) } None => { println!("OK witness no longer fails"); std::process::exit(0) } }
         }
+        if w.starts_with("shortbody ") {
+            let g = |k: &str| -> String { w.split(&format!("{k}=")).nth(1).unwrap().split(' ').next().unwrap().to_string() };
+            let small: usize = g("S").parse().unwrap();
+            let s = start(small);
+            match shortbody(&s, small, g("kind").chars().next().unwrap(), g("len").parse().unwrap(), g("sent").parse().unwrap()) { Some(m) => { println!("WITNESS {m}"); std::process::exit(1) } None => { println!("OK witness no longer fails"); std::process::exit(0) } }
+        }
         let (small, reqs) = parse(&args[2..].join(" "));
         let s = start(small);
         match scenario(&s, small, &reqs) { Some(m) => { println!("WITNESS {m}"); std::process::exit(1) } None => { println!("OK witness no longer fails"); std::process::exit(0) } }
@@ -159,6 +183,10 @@ fn main() {
         for (k, c) in &kinds { for l in lens { n += 1; if let Some(w) = scenario(&s, small, &[(*k, *c, l)]) { if found.len() < 6 { found.push(w) } } } }
         for (k1, c1) in &kinds { for (k2, c2) in &kinds { for (l1, l2) in [(0, 0), (small, small + 1), (small + 1, 0), (1, 3 * small + 50)] {
             n += 1; if let Some(w) = scenario(&s, small, &[(*k1, *c1, l1), (*k2, *c2, l2), ('r', 200, 0)]) { if found.len() < 6 { found.push(w) } }
+        }}}
+        for kind in ['g', 'r'] { for l in [1usize, small.max(1), small + 1, 3 * small + 50, 70_000] { for sent in [0usize, l / 2, l - 1] {
+            if sent >= l { continue; }
+            n += 1; if let Some(w) = shortbody(&s, small, kind, l, sent) { if found.len() < 6 { found.push(w) } }
         }}}
     }
     {
